@@ -97,6 +97,10 @@ func BuildFunction(x *ast.FuncDecl, file *CodeContainer) *CodeFunction {
 			TypeValue: param.TypeValue,
 		})
 	}
+	if x.Body == nil {
+		// a declaration without body (implemented outside Go)
+		return codeFunc
+	}
 	for _, item := range x.Body.List {
 		localVars, _ = BuildMethodCall(codeFunc, item, fields, localVars, file.Imports, file.PackageName)
 	}
